@@ -275,3 +275,30 @@ def unordered_arrivals_scenario(seed, algo="naive"):
     arrivals = [[] for _ in range(nticks)]
     arrivals[0] = order
     return {"layer": "S", "algo": algo, "cfg": cfg, "pipes": pipes, "steps": [], "arrivals": arrivals}
+
+
+def queued_siblings_scenario(seed):
+    """priority with single-operator containers on one small pool (every container gets 1 CPU): a pipeline root -> {b1 .. bw} with more ready siblings than
+    CPUs, so some of them wait in the queue; b1 is short and has a child c, which becomes ready while its aunts are still queued.  c must be queued in that
+    very round (behind them), and lower-priority work must not overtake it."""
+    rng = random.Random(seed)
+    tps = rng.choice([1, 2])
+    cpus = rng.choice([3, 4])
+    cfg = {"tps": tps, "multi": False, "over": False, "npools": 1, "cpus": cpus, "ram": fstr(rng.choice([8, 9]))}
+    small = F(1, 64)
+    width = cpus + rng.randint(1, 3)
+    long = rng.randint(3, 4)
+    ops = [gen_e.simple_op(tps, 1, fixed=small)]
+    ops.append(gen_e.simple_op(tps, 1, fixed=small, parents=[0]))
+    for i in range(2, width + 1):
+        ops.append(gen_e.simple_op(tps, long if i <= cpus else rng.randint(1, 2), fixed=small, parents=[0]))
+    ops.append(gen_e.simple_op(tps, rng.randint(1, 2), fixed=small, parents=[1]))
+    pipes = [{"prio": rng.choice([1, 2]), "ops": ops}]
+    for _ in range(rng.randint(1, 2)):
+        pipes.append({"prio": 3, "ops": [gen_e.simple_op(tps, rng.randint(1, 3), fixed=small)]})
+    nticks = 40
+    arrivals = [[] for _ in range(nticks)]
+    arrivals[0] = [0]
+    for k in range(1, len(pipes)):
+        arrivals[rng.randint(0, 4)].append(k)
+    return {"layer": "S", "algo": "priority", "cfg": cfg, "pipes": pipes, "steps": [], "arrivals": arrivals}
